@@ -143,8 +143,8 @@ func TestC13_History(t *testing.T) {
 		if h.Algorithm() != a.algo || h.Size() != a.size {
 			g.Fatalf("%s: Algorithm()/Size() = %v/%d", a.name, h.Algorithm(), h.Size())
 		}
-		var stream []byte   // bytes absorbed since the last reset
-		needReset := false  // documentation requires Reset before anything but ComputeHash/Reset
+		var stream []byte  // bytes absorbed since the last reset
+		needReset := false // documentation requires Reset before anything but ComputeHash/Reset
 		steps := g.Int("steps", 1, 25)
 		ops := map[string]bool{}
 		crossed := false
